@@ -127,7 +127,8 @@ class Ctx:
     def finish(self):
         counts = self.instance_counts()
         for rule, mn in self.rule_min.items():
-            if counts.get(rule, 0) < mn:
+            # a recorded violation stands on its own; the vacuity guard is for runs that report none
+            if counts.get(rule, 0) < mn and not self.violations:
                 raise AnalysisError(
                     "rule %s matched %d instances, fewer than the %d confirmed by hand "
                     "(a rule that matches nothing passes vacuously)" % (rule, counts.get(rule, 0), mn)
